@@ -128,6 +128,9 @@ theorem runActs_wf (acts : List Act) (x : Ctx) {s : S} (h : s.WF) : (runActs s x
       intro i; rw [schedAll_tempi]; exact hb i
     | seed n => exact ih (s := (s.bumpPc x.rid).setRt _ _) hb
     | draw => exact ih (s := { (s.bumpPc x.rid).emit _ with draws := _ }) hb
+    | pull r =>
+      apply ih
+      intro i; rw [(pull_frame (s.bumpPc x.rid) x.rid r).1]; exact hb i
 
 theorem exec_wf {s : S} (h : s.WF) (e : Entry) : (s.exec e).WF := by
   unfold S.exec
@@ -194,6 +197,29 @@ theorem SysOnly.playNow {s : S} (h : SysOnly s) (r : Nat) : SysOnly (s.playNow r
     refine SysOnly.add (SysOnly.setRt h r _ ?_ ?_) _ _ <;> simp [h.clock r]
   · exact h
 
+theorem runSub_sysOnly (acts : List Act) (r : Nat) {s : S} (h : SysOnly s) : SysOnly (runSub s r acts) := by
+  induction acts generalizing s with
+  | nil => unfold runSub; exact h.setRt _ _ rfl rfl
+  | cons a rest ih =>
+    have hb : SysOnly (s.bumpPc r) := h.setRt r _ (h.clock r) rfl
+    unfold runSub
+    simp only
+    cases a with
+    | yield d => exact hb
+    | seed n => apply ih; refine hb.setRt r _ ?_ ?_ <;> simp [hb.clock r]
+    | draw => exact ih (hb.of_same rfl (fun _ => ⟨rfl, rfl⟩))
+    | _ => exact ih hb
+
+theorem SysOnly.pull {s : S} (h : SysOnly s) (b r : Nat) : SysOnly (s.pull b r) := by
+  unfold S.pull
+  split
+  · exact h
+  · simp only
+    split
+    · apply runSub_sysOnly
+      refine (h.create b r).setRt r _ ?_ ?_ <;> simp [(h.create b r).clock r]
+    · exact h.create b r
+
 theorem runActs_sysOnly (acts : List Act) (x : Ctx) (hx : x.clk = .sys) {s : S} (h : SysOnly s)
     (hacts : ∀ a ∈ acts, Act.sysOnly a = true) : SysOnly (runActs s x acts) := by
   induction acts generalizing s with
@@ -250,6 +276,7 @@ theorem runActs_sysOnly (acts : List Act) (x : Ctx) (hx : x.clk = .sys) {s : S} 
       exact hb.of_same rfl (fun _ => ⟨rfl, rfl⟩)
     | seed n => apply ih'; refine hb.setRt x.rid _ ?_ ?_ <;> simp [hb.clock x.rid]
     | draw => exact ih' (hb.of_same rfl (fun _ => ⟨rfl, rfl⟩))
+    | pull r => exact ih' (hb.pull _ _)
 
 theorem exec_sysOnly {s : S} (h : SysOnly s) {e : Entry} (he : e ∈ s.pend) : SysOnly (s.exec e) := by
   have h1 : SysOnly { s with pend := s.pend.filter (fun e' => !(e' == e)), mainSecs := s.secsOf e } :=
@@ -305,6 +332,42 @@ theorem play_draws (s : S) (b r : Nat) (c : Clk) : (s.play b r c).draws = s.draw
   repeat' split
   all_goals rfl
 
+theorem runSub_drawInv (acts : List Act) (r : Nat) {s : S} (h : DrawInv s) : DrawInv (runSub s r acts) := by
+  induction acts generalizing s with
+  | nil => exact h.of_same rfl rfl
+  | cons a rest ih =>
+    have hb : DrawInv (s.bumpPc r) := h.of_same rfl rfl
+    unfold runSub
+    simp only
+    cases a with
+    | yield d => exact hb
+    | seed n => exact ih (hb.of_same rfl rfl)
+    | draw =>
+      simp only
+      apply ih
+      intro g
+      show drawIdxs g (Ev.draw r _ _ :: (s.bumpPc r).trace) = _
+      rw [drawIdxs_cons]
+      simp only
+      by_cases hg : ((s.bumpPc r).rts r).gen = g
+      · subst hg
+        simp only [if_true]
+        rw [hb, List.range_succ]
+      · have hg' : g ≠ ((s.bumpPc r).rts r).gen := fun e => hg e.symm
+        simp only [hg, hg', if_false, List.append_nil]
+        exact hb g
+    | _ => exact ih hb
+
+theorem pull_drawInv {s : S} (h : DrawInv s) (b r : Nat) : DrawInv (s.pull b r) := by
+  have hc : DrawInv (s.create b r) := by unfold S.create; split <;> exact h.of_same rfl rfl
+  unfold S.pull
+  split
+  · exact h
+  · simp only
+    split
+    · exact runSub_drawInv _ _ (hc.of_same rfl rfl)
+    · exact hc
+
 theorem runActs_drawInv (acts : List Act) (x : Ctx) {s : S} (h : DrawInv s) : DrawInv (runActs s x acts) := by
   induction acts generalizing s with
   | nil => exact h.of_same rfl rfl
@@ -339,6 +402,7 @@ theorem runActs_drawInv (acts : List Act) (x : Ctx) {s : S} (h : DrawInv s) : Dr
       simp only
       exact ih (hb.of_same (schedAll_trace _ _) (schedAll_draws _ _))
     | seed n => exact ih (hb.of_same rfl rfl)
+    | pull r => exact ih (pull_drawInv hb _ _)
     | draw =>
       simp only
       apply ih
